@@ -594,7 +594,9 @@ func ReadContractFile(path, pkgPath string) ([]*Contract, error) {
 			word, rest = s[:j], strings.TrimSpace(s[j+1:])
 		}
 		switch word {
-		case "func", "lemma":
+		case "func", "lemma", "monitor":
+			// monitor (recv *T) field(): the mutex field guards the places listed under
+			// "modifies"; the "invariant" clauses hold whenever the mutex is free
 			c, err := parseHeader(word, rest)
 			if err != nil {
 				return nil, fmt.Errorf("%s:%d: %v", path, l.n, err)
@@ -636,6 +638,14 @@ func ReadContractFile(path, pkgPath string) ([]*Contract, error) {
 		default:
 			if tgt == nil {
 				return nil, fmt.Errorf("%s:%d: clause outside block: %s", path, l.n, s)
+			}
+			if word == "invariant" && tgt.Kind == "monitor" {
+				cl, err := mkClause(word, rest, l.n)
+				if err != nil {
+					return nil, err
+				}
+				tgt.Requires = append(tgt.Requires, cl)
+				continue
 			}
 			switch word {
 			case "requires", "ensures":
